@@ -17,6 +17,7 @@ EDITS = [
  ("comment-invmod", "C08", "src/arith.rs", "        let x = if e.x < 0 { e.x + p as i128 } else { e.x };", "        // make the cofactor non-negative\n        let x = if e.x < 0 { e.x + p as i128 } else { e.x };"),
  ("rename-pm1", "C16", "src/pollard_pm1.rs", None, ("factor", {"xr240": "x240", "fmax": "nblocks"})),
  ("swap-pm1", "C16", "src/pollard_pm1.rs", "        let xr480 = mg_mul(n, ninv, xr240, xr240);\n        let xr502 = mg_mul(n, ninv, xr480, jumps[22 / 2 - 1]);", "        let xr480 = mg_mul(n, ninv, xr240, xr240);\n\n        let xr502 = mg_mul(n, ninv, jumps[22 / 2 - 1], xr480);"),
+ ("rename-batch", "C12", "src/mpqs.rs", None, ("batch_inversion", {"prodrev": "acc", "invprod": "inv_all"})),
  ("comment-factor", "C01", "src/lib.rs", "    if n.is_one() {\n        return;\n    }\n    let is_perfect_power", "    // nothing to do for 1\n    if n.is_one() {\n        return;\n    }\n\n    let is_perfect_power"),
 ]
 def fn_span(t, name):
